@@ -524,6 +524,7 @@ func cmdCache(args []string) int {
 	}
 	if *stress > 0 {
 		cacheManyStatements(4500, addViol)
+		concurrentNewDB(20**stress, addViol)
 	}
 	for i := 0; i < *stress; i++ {
 		cacheStress(r.fork(), addViol)
@@ -836,6 +837,61 @@ func cachePrepareCancel(r *rng, add func(violation)) {
 	}
 	sqldb.Close()
 	dropFakeDB(f.name)
+}
+
+// concurrentNewDB: sqlair.DB values are created from several goroutines at once; a Statement run on each of
+// them afterwards is executed on the database it was issued on (each driver sees exactly its own call).
+func concurrentNewDB(rounds int, add func(violation)) {
+	viol := func(detail string) {
+		add(violation{"C09", "call-executed-on-another-database", hx("NewDB from 16 goroutines at once, then one Statement on each DB"), detail})
+	}
+	const n = 16
+	for round := 0; round < rounds; round++ {
+		cacheStmtCounter++
+		stmt := sqlair.MustPrepare(fmt.Sprintf("SELECT &Person.* FROM person WHERE id = $Person.id -- newdb %d", cacheStmtCounter), Person{})
+		sqldbs := make([]*sql.DB, n)
+		fakes := make([]*fakeDB, n)
+		dbs := make([]*sqlair.DB, n)
+		for i := range sqldbs {
+			sqldbs[i], fakes[i] = openFake()
+		}
+		var wg sync.WaitGroup
+		start := make(chan struct{})
+		for i := range dbs {
+			wg.Add(1)
+			go func(i int) {
+				defer wg.Done()
+				<-start
+				dbs[i] = sqlair.NewDB(sqldbs[i])
+			}(i)
+		}
+		close(start)
+		wg.Wait()
+		bad := ""
+		for i := range dbs {
+			var p Person
+			dbs[i].Query(context.Background(), stmt, Person{ID: i}).Get(&p)
+		}
+		for i, f := range fakes {
+			got := 0
+			for _, ev := range f.log() {
+				if ev.Kind == "query" || ev.Kind == "exec" {
+					got++
+				}
+			}
+			if got != 1 && bad == "" {
+				bad = fmt.Sprintf("round %d: the driver of database %d executed %d statements for the one call issued on it", round, i, got)
+			}
+		}
+		for i := range sqldbs {
+			sqldbs[i].Close()
+			dropFakeDB(fakes[i].name)
+		}
+		if bad != "" {
+			viol(bad)
+			return
+		}
+	}
 }
 
 // cacheManyStatements: several thousand Statements are alive and prepared on one DB at the same time; every
